@@ -402,6 +402,141 @@ def overlap_sides(ctx):
         raise AnalysisError('determine_state_functions: %d side functions found (confirmed: 4)' % n_l)
 
 
+WRAP = 'exactpack.solvers.riemann2D_2section_steadystate.ep_riemann2D_2section_steadystate:IGEOS_Solver'
+FIELD_OF_STATE = ('pressure', 'density', 'Mach')          # documented order of an incoming state: [p, rho, Mach, angle, gamma]
+
+
+def delegation(ctx):
+    """R19.6  The public solver solves the problem the user posed and labels the columns correctly: the inner problem object
+    gets the wrapper's own `bottom_state` / `top_state`; the table `assign_lineout_vals` fills has one column per quantity
+    (identified by what the column is initialised with: the incoming bottom state's pressure, density, p/rho/(g-1), Mach
+    number, c M cos(theta), c M sin(theta), decided as normal forms), and every named field the wrapper returns is the
+    column of that quantity."""
+    model = ctx.model
+    # --- the column layout of the table
+    b = Builder(model)
+    b.frame = Frame(None, ctx.mod, {}, None)
+    bs = b.mk('tuple', args=[b.mk('param', 'B' + k) for k in ('p', 'r', 'M', 'theta_deg', 'g')])
+    ts = b.mk('tuple', args=[b.mk('param', 'T' + k) for k in ('p', 'r', 'M', 'theta_deg', 'g')])
+    inst = b.symbolic_obj(ctx.ci, ['pressure_solution', 'deflection_angle_solution', 'rB_star', 'MB_star', 'uB_star', 'vB_star',
+                                   'rT_star', 'MT_star', 'uT_star', 'vT_star', 'angles', 'morphology'],
+                          {'bottom_state': bs, 'top_state': ts})
+    m0 = ctx.method('set_initial_state_values')
+    b.frame = Frame(None, ctx.mod, {}, None)
+    b.call_closure(Closure(m0, m0.node, None, self_node=inst, cls=ctx.ci, module=ctx.mod), [], {}, m0.node)
+    runm = ctx.method('assign_lineout_vals')
+    xs, ys = b.mk('param', 'xs'), b.mk('param', 'ys')
+    b.frame = Frame(runm, ctx.mod, {'self': inst, 'xs': xs, 'ys': ys}, self_obj=inst, cls=ctx.ci)
+    table = None
+    for st in runm.node.body:
+        if isinstance(st, ast.For):
+            break
+        try:
+            b.exec_stmt(st)
+        except AnalysisError:
+            raise
+        except Exception:
+            continue
+        if isinstance(st, ast.Assign) and isinstance(st.targets[0], ast.Name) and st.targets[0].id == 'lineout_vals':
+            table = b.frame.locals['lineout_vals']
+    if table is None:
+        raise AnalysisError('assign_lineout_vals no longer builds lineout_vals before its loop')
+    lst = None
+    for n in walk(table):
+        if n.kind == 'list' and len(n.args) >= 8:
+            lst = n
+            break
+    if lst is None:
+        raise AnalysisError('assign_lineout_vals: the initial table is no longer array([...columns...])')
+    ev = NFEval(['Bg', 'Tg'])
+    Bp, Br, BM, Bth, Bg = bs.args
+    h = b.heap[inst.val.oid]
+    want = {
+        'x_position': xs, 'y_position': ys, 'pressure': Bp, 'density': Br, 'Mach': BM,
+        'specific_internal_energy': b.mk('binop', '/', [b.mk('binop', '/', [Bp, Br]), b.mk('binop', '-', [Bg, b.const(1.)])]),
+        'x_velocity': h['uB'], 'y_velocity': h['vB'],
+    }
+    wkeys = {}
+    for q, n in want.items():
+        v = ev.nf(n)
+        wkeys[q] = v
+    column = {}
+    for i, e in enumerate(lst.args):
+        v = ev.nf(e)
+        if v is NAN or isinstance(v, (PW, Struct)):
+            continue
+        for q, w in wkeys.items():
+            if not (w is NAN or isinstance(w, (PW, Struct))) and ev.is_zero(ev.add(v, w, -1)):
+                column.setdefault(q, i)
+    missing = [q for q in want if q not in column]
+    if missing:
+        raise AnalysisError('assign_lineout_vals: no column initialised with the bottom state\'s %s' % ', '.join(missing))
+    # speed: appended after the loop by vstack([lineout_vals, speed]) -> the next index, checked: speed = sqrt(u^2 + v^2) of the u, v columns
+    sp_ok = False
+    for st in runm.node.body:
+        if isinstance(st, ast.Assign) and isinstance(st.targets[0], ast.Name) and st.targets[0].id == 'speed':
+            idx = sorted(x.slice.value for x in ast.walk(st.value) if isinstance(x, ast.Subscript) and isinstance(x.slice, ast.Constant))
+            sp_ok = idx == sorted([column['x_velocity'], column['y_velocity']]) and any(
+                isinstance(x, ast.Call) and isinstance(x.func, ast.Name) and x.func.id == 'sqrt' for x in ast.walk(st.value))
+    ctx.check(runm, 'speed column = sqrt(u-column^2 + v-column^2)', sp_ok,
+              'assign_lineout_vals: the appended speed is not sqrt of the squares of the x- and y-velocity columns (%d, %d)'
+              % (column['x_velocity'], column['y_velocity']))
+    column['speed'] = len(lst.args)
+    # --- the wrapper
+    wcls = model.get_class(WRAP)
+    wrun = wcls.find_method('_run')
+    if wrun is None:
+        raise AnalysisError('2D IGEOS_Solver._run vanished')
+    b2 = Builder(model)
+    wobj, _ = b2.run_solver(wcls, run=False)
+    a = [x.arg for x in wrun.node.args.args]
+    r_in, t_in = b2.make_input('r'), b2.make_input('t')
+    b2.frame = Frame(wrun, wcls.module, {a[0]: wobj, a[1]: r_in, a[2]: t_in}, self_obj=wobj, cls=wcls)
+    ret = None
+    tab = b2.mk('input', 'prob.lineout_vals')
+    for st in wrun.node.body:
+        objs = {k: v for k, v in b2.frame.locals.items() if v is not None and v.kind == 'obj' and v is not wobj}
+        if isinstance(st, ast.Expr) and isinstance(st.value, ast.Call) and isinstance(st.value.func, ast.Attribute) \
+                and isinstance(st.value.func.value, ast.Name) and st.value.func.value.id in objs:
+            inner = objs[st.value.func.value.id]
+            hh = dict(b2.heap[inner.val.oid])
+            for k in ('bottom_state', 'top_state'):
+                v = hh.get(k)
+                ctx.check(wrun, "inner problem object: %s is the solver's parameter %s" % (k, k),
+                          v is not None and v.kind == 'param' and v.val == k,
+                          "2D IGEOS_Solver._run: the inner problem object is built with %s = `%s`, not the solver's own parameter %s: "
+                          "the solution returned belongs to other incoming states than the user's"
+                          % (k, src_of(v.origin[1])[:50] if v is not None and v.origin and v.origin[1] is not None else '?', k), at=st)
+            hh['lineout_vals'] = tab
+            b2.heap[inner.val.oid] = hh
+            continue
+        if isinstance(st, ast.Return):
+            ret = b2.eval(st.value)
+            break
+        try:
+            b2.exec_stmt(st)
+        except AnalysisError:
+            raise
+        except Exception:
+            continue
+    if ret is None or ret.kind != 'call' or not ret.args or ret.args[0].kind != 'list':
+        raise AnalysisError('2D IGEOS_Solver._run: unexpected return shape')
+    names = ret.kw.get('names')
+    if names is None or not all(x.kind == 'const' for x in names.args):
+        raise AnalysisError('2D IGEOS_Solver._run: field names are not literal')
+    got = dict(zip([x.val for x in names.args], ret.args[0].args))
+    for q, i in sorted(column.items(), key=lambda kv: kv[1]):
+        if q not in got:
+            raise AnalysisError("2D IGEOS_Solver._run: field '%s' not returned" % q)
+        v = got[q]
+        ok = v.kind == 'sub' and v.args[0] is tab and v.args[1].kind == 'const' and v.args[1].val == i
+        ctx.check(wrun, "field '%s' is column %d of the table (the column of that quantity)" % (q, i), ok,
+                  "2D IGEOS_Solver._run: the field '%s' is `%s`, but assign_lineout_vals keeps that quantity in column %d of the table "
+                  "(the column initialised with the incoming bottom state's value of it)"
+                  % (q, src_of(v.origin[1])[:40] if v.origin and v.origin[1] is not None else '?', i),
+                  at=v.origin[1] if v.origin else None)
+
+
 def expansions(ctx):
     b = Builder(ctx.model)
     b.frame = Frame(None, ctx.mod, {}, None)
@@ -715,6 +850,7 @@ def run(model, tier):
     shocks(ctx)
     shock_placement(ctx)
     overlap_sides(ctx)
+    delegation(ctx)
     expansions(ctx)
     consistency(ctx)
     fans(ctx)
